@@ -49,6 +49,50 @@ CHECKS["C05"] = dict(
     technique="Lean 4 proof by induction on digit strings; differential lexer/template/value correspondence against fractions.Fraction",
     ref="§5 C05")
 
+CHECKS["C06"] = dict(
+    text="Lean theorems for every string: quote_lex (the lexer reads quotify's text back as one STRING token carrying the escaped body), "
+         "quote_eval_raw (escape for Python, decode: identity; dictionary compression off) and quote_eval_dict (identity for every "
+         "printable-ASCII string with ANY dictionary, via uncompress_ascii_id on the modelled state machine of uncompress_dict and a "
+         "kernel-checked table fact that no printable ASCII character is a compression character). Tie: real quotify / tokenise / emitted "
+         "literal body / CPython decoding vs the models; direct round-trip oracle running the quoted text.",
+    note=COMMON_NOTE + "T3: CPython's string-literal decoding is modelled for the escapes that can arise and validated on every case.",
+    technique="Lean 4 proof by induction on the string; differential correspondence; exec round-trip oracle",
+    ref="§5 C06")
+CHECKS["C02"] = dict(
+    text="Lean: every template of the regenerated element/modifier tables parses and is well formed in every context (templates_parse, "
+         "templates_wf, template_valid_everywhere via a monotonicity theorem of the context-sensitive well-formedness wfL); schematic "
+         "theorems that the for / while / lambda templates of the transpiler model are well formed around any well-formed body and that "
+         "the X / x templates are well formed exactly in the contexts the templates put them in (and provably not outside: F5/F26). Tie: "
+         "ast.parse of the real output vs the Lean transpiler model on every generated program; direct oracle transpile + compile().",
+    note=COMMON_NOTE + "Partial: the tree-level induction (transpile_wf for all trees) is not yet proved - the per-template theorems and "
+         "the AST correspondence carry it. T3: compile() is the judge of valid Python. Known findings F5/F26 (break emitted outside a loop) and F7 (live string escapes) are classified by call site.",
+    technique="Lean 4 proof (kernel evaluation over regenerated tables + monotonicity induction + per-template lemmas); AST-level differential correspondence; compile() oracle",
+    ref="§5 C02")
+CHECKS["C12"] = dict(
+    text="Lean: a delta typing of the control-flow skeleton of generated Python (four counters, break/continue/return, nested defs, "
+         "try) with a soundness theorem against a nondeterministic execution relation (any conditions, any iteration counts): accepted "
+         "code restores all four bookkeeping depths on every normal exit (balanced_sound, function_body_balanced); kernel-checked table "
+         "theorems that every element/modifier template and every helper of the repository that touches the lists is accepted; schematic "
+         "theorems for the for / while / lambda templates with X / x at the depth the templates place them. Tie: AST correspondence of the "
+         "transpiler model; depth-tuple oracle after every top-level statement of generated terminating programs, and `n` at the end.",
+    note=COMMON_NOTE + "Partial: the tree-level induction over transpileAst is not yet proved (per-template theorems + AST stream carry it); "
+         "calls are neutral because callee bodies are checked balanced (defn case, helper table) - the induction on call depth is informal; "
+         "abnormal termination is outside the property.",
+    technique="Lean 4 proof (abstract interpretation + soundness by mutual induction on derivations; decide +kernel over regenerated templates and helper bodies); AST correspondence; depth oracle",
+    ref="§5 C12")
+CHECKS["C18"] = dict(
+    text="Lean: in the transpiler model program text can enter the output only through five constructors; theorems show the generated "
+         "tables contain none of them, that every string is escaped into exactly one Python literal body (escape_is_one_literal, all "
+         "strings), that the lexer only lets digits/points/degree signs into number tokens and letters/underscore into variable tokens "
+         "(invariants of the tokenise loop), that the text handed to sympy is made of those characters and a fixed alphabet, and that every "
+         "identifier a token or template builds is a fixed prefix plus [A-Za-z0-9_]* (token_holes_ok, sanitise_ident, template_names_ok). "
+         "Tie: AST correspondence; ast.walk oracle on the real output against the regenerated vocabulary, adversarial payloads at every "
+         "program-text position (exhaustive to length 2/3) and random code-page / Unicode strings.",
+    note=COMMON_NOTE + "Partial: tree-level closure (names_from_vocabulary for all trees) is carried by the per-token/per-template theorems and the AST stream. "
+         "T3: repr(str)/str(int) produce valid literals.",
+    technique="Lean 4 proof (lexer loop invariants, induction on strings, kernel evaluation over tables); AST correspondence; ast.walk vocabulary oracle",
+    ref="§5 C18")
+
 NOT_YET = {}
 
 def main():
